@@ -16,9 +16,10 @@ Rot(idx, r) == Sp[((idx - 1 + r) % 4) + 1]
 MkMap(pairs, r) ==
     [n \in { Rot(pairs[i][1], r) : i \in DOMAIN pairs } |->
         pairs[CHOOSE i \in DOMAIN pairs : Rot(pairs[i][1], r) = n][2]]
-Sh(re, pr, ir, ip) == [re |-> re, pr |-> pr, ir |-> ir, ip |-> ip]
+Sh(re, pr, ir, ip) == [re |-> re, pr |-> pr, ir |-> ir, ip |-> ip, hf |-> <<>>]
+ShH(re, pr, ir, ip, hf) == [re |-> re, pr |-> pr, ir |-> ir, ip |-> ip, hf |-> hf]
 Inst(sh, r) == [reac |-> MkMap(sh.re, r), prod |-> MkMap(sh.pr, r),
-                ireac |-> MkMap(sh.ir, r), iprod |-> MkMap(sh.ip, r)]
+                ireac |-> MkMap(sh.ir, r), iprod |-> MkMap(sh.ip, r), half |-> MkMap(sh.hf, r)]
 
 X == 1  Y == 2  Z == 3  W == 4
 Shapes == <<
@@ -37,16 +38,22 @@ Shapes == <<
     Sh(<< <<X,2>> >>,           << <<X,1>>, <<Y,1>> >>,  <<>>,          <<>>),          \* 13  2X -> X + Y
     Sh(<< <<X,1>> >>,           << <<Y,1>> >>,           << <<X,1>> >>, <<>>),          \* 14  X + (X) -> Y    (net -2, exponent 1)
     Sh(<< <<X,1>> >>,           << <<Z,1>> >>,           << <<Y,2>> >>, << <<W,1>> >>), \* 15  X + (2Y) -> Z + (W)
-    Sh(<< <<X,1>> >>,           << <<Y,1>> >>,           <<>>,          << <<X,1>> >>)  \* 16  X -> Y + (X)    (net 0 for X, exponent 1)
+    Sh(<< <<X,1>> >>,           << <<Y,1>> >>,           <<>>,          << <<X,1>> >>), \* 16  X -> Y + (X)    (net 0 for X, exponent 1)
+    \* power-law orders: the active coefficient of the marked species is lowered by 1/2 (the half goes to the inactive part)
+    ShH(<< <<X,1>> >>,          << <<Y,1>> >>,           <<>>,          <<>>,  << <<X,1>> >>),   \* 17  0.5 X + (0.5 X) -> Y
+    ShH(<< <<X,2>>, <<Y,1>> >>, << <<Z,1>> >>,           <<>>,          <<>>,  << <<X,1>> >>),   \* 18  1.5 X + Y + (0.5 X) -> Z
+    ShH(<< <<X,1>>, <<Y,1>> >>, << <<Z,2>> >>,           << <<W,1>> >>, <<>>,  << <<X,1>>, <<Y,1>> >>) \* 19  0.5 X + 0.5 Y + (...) -> 2 Z
 >>
 
-CatRot(rs) == { Inst(Shapes[i], r) : i \in DOMAIN Shapes, r \in rs }
+CatRot(rs) == { Inst(Shapes[i], r) : i \in 1..16, r \in rs }
+CatHalf == { Inst(Shapes[i], r) : i \in 17..19, r \in {0, 1} } \cup { Inst(Shapes[i], 0) : i \in {3, 9} }
 Cat16 == CatRot({0})
 Cat32 == CatRot({0, 2})
 Cat64 == CatRot({0, 1, 2, 3})
 \* the inactive / both-sides / zero-order shapes only (for the wide configurations)
 CatSpecial == { Inst(Shapes[i], r) : i \in 7..16, r \in {0, 1} }
 Cat8 == { Inst(Shapes[i], 0) : i \in {2, 3, 7, 9, 10, 11, 14, 15} }
+CatHalfW == { Inst(Shapes[i], r) : i \in 17..19, r \in {0, 1, 2, 3} } \cup Cat8
 
 K3 == <<Q(11), Q(13), Q(17)>>
 P1 == [s \in AllSpecies |-> CASE s = "A" -> Q(2) [] s = "B" -> Q(3) [] s = "C" -> Q(5) [] s = "D" -> Q(7)]
@@ -60,6 +67,9 @@ CFZ == [s \in AllSpecies |-> CASE s = "A" -> Q(0) [] s = "B" -> Q(29) [] s = "C"
 PtsZero == {PZ, P1}
 PtsZ1 == {PZ}
 KZ == <<Q(11), Q(0), Q(17)>>
+\* perfect squares of the primes: c^(1/2) stays exact
+PSq == [s \in AllSpecies |-> CASE s = "A" -> Q(4) [] s = "B" -> Q(9) [] s = "C" -> Q(25) [] s = "D" -> Q(49)]
+PtsSq == {PSq}
 Pts1 == {P1}
 Pts2 == {P1, P2}
 Pts3 == {P1, P2, P3}
@@ -98,6 +108,6 @@ OrdOne == { <<"C", "A", "D", "B">> }
 OrdTwo == { <<"C", "A", "D", "B">>, <<"A", "B", "C", "D">> }
 OrdAll == { o \in [1..4 -> AllSpecies] : \A i, j \in 1..4 : i # j => o[i] # o[j] }
 
-ASSUME \A r \in Cat64 : IsShape(r)
+ASSUME \A r \in Cat64 \cup CatHalf : IsShape(r)
 ASSUME Cardinality(Cat64) = 64
 =============================================================================
